@@ -313,8 +313,12 @@ def world():
         def __repr__(self):
             return "<RtoP>"
 
+    class A(O):   # stand-in for the per-case class of C01 (replaced through Ctx(self_class))
+        def __repr__(self):
+            return "<A>"
+
     register_factory(RtoP, R, P)
-    w.classes = {0: O, 1: O1, 2: P, 3: Q, 4: R, 9: RtoP}
+    w.classes = {0: O, 1: O1, 2: P, 3: Q, 4: R, 5: A, 9: RtoP}
     w.cid_of = {O: 0, O1: 1, P: 2, Q: 3, R: 4, RtoP: 9}
     w.types = {"str": str, "int": int, "float": float, "complex": complex, "bool": bool, "bytes": bytes,
                "list": list, "tuple": tuple, "dict": dict, "function": types.FunctionType,
